@@ -19,11 +19,11 @@ TraceNext ==
             \* only the signer's key authorises; no change to a signed field after signing
             << "C03.AcceptedUnauthorised", o.accepted => Authorised(k) >>,
             \* an accepted transaction pays at least the required fee ...
-            << "C03.AcceptedUnderpaid", o.accepted => (o.fee >= o.required /\ k.feeD >= 0) >>,
+            << "C03.AcceptedUnderpaid", o.accepted => (o.fee >= o.required /\ FeeCovers(k)) >>,
             \* ... from the signer's own balance into the fee collector, exactly once
             << "C03.WrongFeeMovement", o.accepted => (o.signerDelta = 0 - o.fee /\ o.feeDelta = o.fee /\ o.otherDelta = 0) >>,
             \* a transaction the tx index already contains is rejected
-            << "C03.AcceptedReplay", o.accepted => ~k.replayed >>,
+            << "C03.AcceptedReplay", o.accepted => ~Replayed(k) >>,
             \* a rejected transaction moves nothing
             << "C03.RejectedMovedFunds", ~o.accepted => (o.signerDelta = 0 /\ o.feeDelta = 0 /\ o.otherDelta = 0) >> >>)
      IN IF div # {} \/ bad # {} THEN PrintT("DIV " \o ToJson([l |-> l, b |-> 0, div |-> div, bad |-> bad, note |-> ""])) ELSE TRUE
